@@ -7,6 +7,8 @@ SPEC = dict(
                "every result block printed by the built binary, is checked by one invariant monitor; per-path coverage floors (lexical, NLP, "
                "fuzzy, cached, pipeline, CLI recovery) make a run that missed a path fail as incomplete. A quarter of the generated databases have an "
                "embedding index attached (unit and scaled vectors, vectors with NaN / Inf components, components near the float32 maximum). "
+               "Boost maps include tiny and subnormal factors (also on the query's own words); on the cached path pairs of different requests are asked one "
+               "after the other in which a text field of one spells out the scalar options of the other behind a separator (|, :, comma, blank, ...). "
                "Exploration, not proof.",
     level_note="Trusted: the harness generators, address-based entry identity, Go runtime. Only generated inputs are decided.",
     engines=[
@@ -18,9 +20,9 @@ SPEC = dict(
          "(len<=limit in force, entries are elements of the searched slice by address, no index twice, scores finite >=0, "
          "non-increasing). Non-trivial = distinct (db, query, options) with a non-empty answer, keyed with the answering path.",
     floors=T({"lexical": 200, "nlp": 200, "fuzzy": 100, "cached": 500, "pipeline": 100, "cli-recovery": 5, "cli-fuzzy": 5, "recovery-answers": 100, "cached-limit-sequence-steps": 500,
-              "distinct_nontrivial": 1000, "databases-with-embeddings": 6, "databases-with-embeddings-non-finite": 2, "databases-with-embeddings-huge": 2},
+              "distinct_nontrivial": 1000, "databases-with-embeddings": 6, "databases-with-embeddings-non-finite": 2, "databases-with-embeddings-huge": 2, "cached-look-alike-pair-steps": 10000, "requests-with-a-subnormal-boost-on-a-query-word": 300},
              {"lexical": 2000, "nlp": 2000, "fuzzy": 1000, "cached": 5000, "pipeline": 1000, "cli-recovery": 50, "cli-fuzzy": 50, "recovery-answers": 1000, "cached-limit-sequence-steps": 5000,
-              "distinct_nontrivial": 10000, "databases-with-embeddings": 200, "databases-with-embeddings-non-finite": 50, "databases-with-embeddings-huge": 50}),
+              "distinct_nontrivial": 10000, "databases-with-embeddings": 200, "databases-with-embeddings-non-finite": 50, "databases-with-embeddings-huge": 50, "cached-look-alike-pair-steps": 300000, "requests-with-a-subnormal-boost-on-a-query-word": 10000}),
     assumptions=[
         "context / pipeline boosts are kept <= 1e6 so float overflow to +Inf is not manufactured by the generator",
         "for Limit<=0 the bound asserted is max(10, default): a re-tuned default is not flagged, an unbounded answer is",
